@@ -11,14 +11,6 @@ namespace Sonic.Props.C11
 open Sonic.Gen.MirroredBuffer Sonic.Spec.Mirrored Sonic.Model.Mirrored
 open Sonic.Spec.Bip (imin cells mem_cells)
 
-/-- What C11 quantifies over: amounts are non-negative (any size, also above the free or used
-space); a request is a Go `int`, the page size a positive one. -/
-def OpOk : Op → Prop
-  | .new req page => 0 < page ∧ page ≤ Go.I64MAX ∧ Go.InI64 req
-  | .claim n | .commit n | .consume n => 0 ≤ n
-  | _ => True
-instance (op : Op) : Decidable (OpOk op) := by cases op <;> unfold OpOk <;> exact inferInstance
-
 /-! ## Part 1: the implementation model is accepted by the compact ring monitor -/
 
 /-- Coupling between implementation state and (compact) monitor state. -/
